@@ -194,7 +194,8 @@ example (t : K) (n : Nat) : ∃ (m : Model (Ext K)) (lm : LinModel (Ext K)) (ρ 
   · simp [exAffine, eval]
 
 /-! ## Stage D end to end — C02 on models with logic values and bare assertions
-(vocabulary: `LogicModel`, `GoodE`, `AssertShape` — see `Rooc/Props/C01.lean`, section "Stage D end to end"). -/
+(vocabulary: `LogicModel` — the STATIC contract, definedness is a consequence of the successful compilation —,
+`GoodS`, `AssertShape`: see `Rooc/Props/C01.lean`, section "Stage D end to end"). -/
 
 /-- **C02 for models with logic values and bare assertions**: for every model that compiles and satisfies the
 contract, and every source-feasible `ρ` with objective value `v`: every feasible auxiliary extension has a
